@@ -385,11 +385,13 @@ def row_rewrites(prog, an, sy):
         ncall = an.terms.call_term(nt, nbb)
         nname = sy.name(ncall)
         ename = sy.name(("field", ("downcast", ncall, "Some"), 0))
+        uname = "Option::<T>::unwrap(%s)" % nname       # `let x = it.next().unwrap()`: the same element (None panics)
         conts = []
         for path in paths:
             ats = path_atoms(sy, path)
             keep = [a for a in ats if not (a[0] in ("some", "none") and a[1] == nname)]
-            conts.append(_names(sy, keep, enum, ename))
+            conts.append(set(x_.replace(uname + ".0", "i").replace(uname + ".1", "x").replace(uname, "x") if enum else x_.replace(uname, "x")
+                             for x_ in _names(sy, keep, enum, ename)))
         common = set.intersection(*conts) if conts else set()
         # a loop with stores to outer state is more than a check; its exhaustion atom still only says "all passed"
         out.append({"none": "%s is None" % nname, "some": "%s is Some" % nname, "witness": ename, "seq": seq_str(_seq_key(sy, base, lo, hi)), "enum": enum,
@@ -473,6 +475,7 @@ def rewrite_row(rws, atoms, value):
         value = value.replace(ix, tg)
     if "Option::<T>::unwrap(None{})" in value:
         value = "panic!(unwrap of None)"           # whatever surrounds it is never computed
+        atoms = [a for a in atoms if "Option::<T>::unwrap(None{})" not in a]      # .. nor are tests on the value that does not exist
     return sorted(set(_canon_diff(a) if "@" in a else a for a in atoms)), value
 
 
